@@ -186,6 +186,11 @@ def closed_like(p):
 def check_updaters(chk, rule, fn, bname, paths, required, loc_):
     """on EVERY path, each required attribute is registered with THIS builder's own update callback on the loop's element."""
     cls = bname.split(".")[0]
+    own = {cls + ".update"}
+    # inside a classmethod `cls` is the class itself: cls.update is the same callback
+    if getattr(fn, "args", None) is not None and fn.args.args and fn.args.args[0].arg == "cls" \
+            and any(getattr(d, "id", None) == "classmethod" for d in getattr(fn, "decorator_list", [])):
+        own.add("cls.update")
     ok_all = True
     for attr in sorted(required):
         missing = []
@@ -197,7 +202,7 @@ def check_updaters(chk, rule, fn, bname, paths, required, loc_):
             if not pairs:
                 missing.append(p.label[-60:])
             for a, cb, ob in pairs:
-                if cb != cls + ".update":
+                if cb not in own:
                     wrong.append(cb)
         good = not missing and not wrong
         ok_all = ok_all and good
